@@ -77,6 +77,15 @@ add('C07', 'exploration',
     'Reference lexer lib/reflex.py (Lua 5.2 llex semantics + dialect extensions); rejected texts demand nothing.',
     'DESIGN.md 3/C07')
 
+add('C06', 'exploration',
+    'bounded-exhaustive enumeration of sources (string bodies of <=2/3 atoms over 47 escape/byte atoms x 2 quotes, all '
+    'decimal escapes x followers, every raw byte in string/comment/identifier, long brackets level 0-3, generated programs '
+    'x layouts, newline/chunking variants) through Lua.from_lines + the default writer, judged with the reference lexer',
+    'Complete enumeration of the stated spaces; output compared byte for byte outside quoted literals and by decoded value '
+    'inside them.',
+    'Reference lexer decodes string literals per Lua 5.2 + P8SCII escapes.',
+    'DESIGN.md 3/C06')
+
 PENDING = {
 }
 
